@@ -25,6 +25,9 @@
 #define E_CHK_SCALAR	5	/* ec_point_check_scalar_mult(P): n*P == O */
 #define E_FPX_ANY	6	/* ec_point_fpx_mult_precompute + ec_point_fpx_mult on an arbitrary point */
 #define E_TWIN_ANY	7	/* ec_point_twin_mult(P_i, k, P_j, l, curve, res): two arbitrary points */
+#define E_BP_TWICE	8	/* ec_point_mult_bp(l) then ec_point_mult_bp(k) on the SAME curve object: the first call (l is
+				 * typically one digit wider than the curve: window/comb fall-back) must leave the base-point
+				 * table of the curve object intact for the second */
 
 #ifndef PT_BITS
 #define PT_BITS CV_M
@@ -50,7 +53,7 @@
 #ifndef PT_HI
 #define PT_HI (CV_NTOT - 1)
 #endif
-#define TWO_SCALARS (ENTRY == E_TWIN_BP || ENTRY == E_TWIN_ANY)
+#define TWO_SCALARS (ENTRY == E_TWIN_BP || ENTRY == E_TWIN_ANY || ENTRY == E_BP_TWICE)
 
 struct in_s {
 	uint8_t i, j;		/* table indices of the point operands */
@@ -99,6 +102,19 @@ run(int i_inf, unsigned i, int j_inf, unsigned j, uint32_t k, uint32_t l) {
 	want = ((k * CV_H) % CV_NTOT);
 	V_ASSERT(0 == r, "multiplication reports success");
 	V_ASSERT(env_point_is(&res, want), "k*G is the table's point");
+#elif ENTRY == E_BP_TWICE
+	r = ec_point_mult_bp(&bl, &CV, &res);
+	V_ASSERT(0 == r, "first multiplication reports success");
+	V_ASSERT(env_point_is(&res, ((l * CV_H) % CV_NTOT)), "first call: l*G is the table's point");
+	r = ec_point_init(&pt2, PT_BITS);	/* fresh result object for the second call */
+	V_ASSUME(0 == r);
+	sb_set(&pt2.x, IN.ry);
+	sb_set(&pt2.y, IN.rx);
+	r = ec_point_mult_bp(&bk, &CV, &pt2);
+	want = ((k * CV_H) % CV_NTOT);
+	V_ASSERT(0 == r, "second multiplication reports success");
+	V_ASSERT(env_point_is(&pt2, want), "second call on the same curve object: k*G is the table's point");
+	if (l > 255) V_WITNESS("first scalar wider than the curve");
 #elif ENTRY == E_TWIN_BP
 	r = ec_point_twin_mult_bp(&bk, &pt, &bl, &CV, &res);
 	want = (((k * CV_H) + (l * i)) % CV_NTOT);
@@ -156,7 +172,7 @@ run_pts(unsigned i, unsigned j, uint32_t k, uint32_t l) {
 		run(0, i, 1, 0, k, l);
 	else
 		run(0, i, 0, j, k, l);
-#elif ENTRY == E_BP
+#elif ENTRY == E_BP || ENTRY == E_BP_TWICE
 	run(1, 0, 1, 0, k, l);
 #else
 	if (0 == i)
@@ -201,7 +217,7 @@ body(void) {
 #if ENTRY != E_TWIN_ANY
 	V_ASSUME(0 == j);
 #endif
-#if ENTRY == E_BP
+#if ENTRY == E_BP || ENTRY == E_BP_TWICE
 	V_ASSUME(0 == i);
 #endif
 	V_ASSUME(IN.gx < CV_P && IN.gy < CV_P && IN.rx < CV_P && IN.ry < CV_P);
